@@ -129,3 +129,16 @@ package topology
 //@     invariant forall u in visited :: !activeIn(podSet.podInfos[u], domain)
 //@   ensures [activePodOnDomainNode] result == (exists k in podSets :: exists u in podSets[k].podInfos :: activeIn(podSets[k].podInfos[u], domain))
 //@ end
+
+// ---- C05: node scores of one job never restrict the next --------------------------------------------------------------
+// C05 "allocate pops every ready pending job and tries all nodes in score order": nodeOrderFn drops (returns an error
+// for) every node that is missing from a score map it finds for the task's sub-group or one of its parent sets, so a
+// score map left over from an EARLIER job (e.g. under the root set "") would hide nodes from every later job. The
+// pre-job hook therefore has to leave NO entry at all (a round-3 seeded change that deleted only the leaf pod sets of
+// the next job was missed before this contract existed).
+//@ func (*topologyPlugin).preJobAllocationFn
+//@   props C05 C04
+//@   requires t != nil
+//@   modifies t.subGroupNodeScores
+//@   ensures [noScoreOfAnEarlierJobSurvives] t.subGroupNodeScores != nil && (forall k subgroupName :: !(k in t.subGroupNodeScores))
+//@ end
